@@ -2235,7 +2235,7 @@ Lemma mk_labware_ok a L : mk_labware a = Ok L ->
     length vs = (rows * cols)%nat /\ Forall (fun v => 0 <= v) vs /\
     lw_vols L = map Qred vs /\
     (forall xs, a_init a = Some (A1 xs) -> xs = map XQ vs) /\
-    initial_composition (a_name a) (1 <? rows)%nat (rows * cols) (a_names a)
+    initial_composition (a_name a) (1 <? rows * cols)%nat (rows * cols) (a_names a)
       (real_ids rows cols) (map Qred vs) 0 [] = Ok (lw_comp L).
 Proof.
   unfold mk_labware.
@@ -2255,7 +2255,7 @@ Proof.
   destruct (existsb (fun v => Qgtb v mx) vs); [discriminate|].
   match goal with |- (if ?b then _ else _) = _ -> _ => destruct b; [discriminate|] end.
   fold (real_ids rows cols).
-  destruct (initial_composition (a_name a) (1 <? rows)%nat (rows * cols) (a_names a)
+  destruct (initial_composition (a_name a) (1 <? rows * cols)%nat (rows * cols) (a_names a)
               (real_ids rows cols) (map Qred vs) 0 []) as [comp|e] eqn:EIC; [|discriminate].
   intro H. inversion H; subst L. clear H.
   cbn [lw_geom lw_min lw_name lw_vols lw_comp].
@@ -2306,7 +2306,7 @@ Lemma mk_labware_init a L : mk_labware a = Ok L ->
      (vol_at L i == 0 -> forall k, frac L k i = 0) /\
      (~ vol_at L i == 0 ->
       forall k, frac L k i =
-        if String.eqb (init_name (a_name a) (1 <? g_rows (lw_geom L))%nat (a_names a) (well_id r c)) k
+        if String.eqb (init_name (a_name a) (1 <? g_rows (lw_geom L) * g_cols (lw_geom L))%nat (a_names a) (well_id r c)) k
         then 1 else 0)) /\
   (forall i, (i < n_wells (lw_geom L))%nat ->
      (vol_at L i == 0 -> well_sum L i == 0) /\ (~ vol_at L i == 0 -> fully_known L i)).
@@ -2322,7 +2322,7 @@ Proof.
   assert (Hcol : forall j, (j < rows * cols)%nat ->
             (vol_at L j == 0 -> forall k, frac L k j = 0) /\
             (~ vol_at L j == 0 -> forall k, frac L k j =
-               if String.eqb (init_name (a_name a) (1 <? rows)%nat (a_names a)
+               if String.eqb (init_name (a_name a) (1 <? rows * cols)%nat (a_names a)
                                 (nth j (real_ids rows cols) EmptyString)) k then 1 else 0)).
   { intros j Hj. split; intros Hv k; unfold frac; rewrite (R4 k j Hj).
     - apply Hz in Hv. rewrite Hv. reflexivity.
@@ -2363,7 +2363,7 @@ Lemma init_name_default name multi names w :
   init_name name multi names w = if multi then (name ++ "." ++ w)%string else name.
 Proof. intros [H|H]; unfold init_name; rewrite H; reflexivity. Qed.
 
-(** the per-well defaults of a multi-row plate are pairwise distinct *)
+(** the per-well defaults of a labware with several wells are pairwise distinct *)
 Lemma default_names_distinct name r c r' c' : (r < 26)%nat -> (r' < 26)%nat ->
   (name ++ "." ++ well_id r c)%string = (name ++ "." ++ well_id r' c')%string -> r = r' /\ c = c'.
 Proof.
